@@ -842,6 +842,65 @@ class Oracle:
         return self.valid(th.hyps, th.prop, key=key)
 
     def _valid(self, hyps, concl):
+        v = self._valid0(hyps, concl)
+        if v.status == 'unknown':
+            t = self._templates(hyps, concl)
+            if t is not None:
+                return t
+        return v
+
+    # ---- counter-models by template: a free variable f : num => num is universally quantified, so one invalid
+    # instance of the sequent refutes it.  f is replaced by a few concrete functions (n+c, c, 2n, c-n), the result is
+    # beta-normalised, and the function-free instance is decided: a closed instance only by `valid` verdicts
+    # (every hypothesis valid, the negated conclusion valid), an open one by the ordinary confirmed pipeline.
+    def _templates(self, hyps, concl):
+        from kernel.term import Var, Lambda, Number, Not, Inst
+        fvars = []
+        for t in list(hyps) + [concl]:
+            for v in t.get_vars():
+                if v not in fvars and is_fun(v.T) and len(v.T.args) == 2 and v.T.args[0] == v.T.args[1] and v.T.args[0] in (NatType, IntType, RealType):
+                    fvars.append(v)
+        if not fvars or len(fvars) > 2:
+            return None
+
+        def temps(ty):
+            n = Var('n_', ty)
+            N = lambda k: Number(ty, k)
+            out = [('%n. n', Lambda(n, n)), ('%n. n + 1', Lambda(n, n + N(1))), ('%n. 0', Lambda(n, N(0))), ('%n. 1', Lambda(n, N(1))),
+                   ('%n. 2 * n', Lambda(n, N(2) * n)), ('%n. n + 2', Lambda(n, n + N(2))), ('%n. 1 - n', Lambda(n, N(1) - n))]
+            if ty != NatType:
+                out.append(('%n. -n', Lambda(n, N(0) - n)))
+            return out
+        for combo in itertools.product(*[temps(v.T.args[0]) for v in fvars]):
+            def put(t):
+                for v, (_, lam) in zip(fvars, combo):
+                    t = t.abstract_over(v).subst_bound(lam) if False else Lambda(v, t)(lam).beta_conv()
+                return t.beta_norm()
+            try:
+                hs = [put(h) for h in hyps]
+                c = put(concl)
+            except Exception:
+                continue
+            # strip implications of the conclusion into hypotheses
+            while c.is_implies():
+                hs.append(c.arg1)
+                c = c.arg
+            model = {v.name: lab for v, (lab, _) in zip(fvars, combo)}
+            if all(not t.get_vars() and not t.get_svars() for t in hs + [c]):
+                ok = True
+                for h in hs:
+                    if self._valid0([], h).status != 'valid':
+                        ok = False
+                        break
+                if ok and self._valid0([], Not(c)).status == 'valid':
+                    return Verdict('invalid', 'template-instance(closed)', model=model)
+            else:
+                v = self._valid0(hs, c)
+                if v.status == 'invalid':
+                    return Verdict('invalid', 'template-instance+' + v.how, model=dict(model, rest=v.model))
+        return None
+
+    def _valid0(self, hyps, concl):
         why = ''
         try:
             enc = Enc()
